@@ -263,10 +263,10 @@ func getUrl(_token Token, baseUrl string) (url pr.NamedString, attr pr.AttrData,
 	case pa.URL:
 		return parseURLToken(token.Value, baseUrl)
 	case pa.FunctionBlock:
-		if token.Name == "attr" {
+		if name := utils.AsciiLower(token.Name); name == "attr" {
 			attr = checkAttrFunction(token, "url")
 			return
-		} else if L := len(token.Arguments); token.Name == "url" && (L == 1 || L == 2) {
+		} else if L := len(token.Arguments); name == "url" && (L == 1 || L == 2) {
 			val, _ := (token.Arguments)[0].(pa.String)
 			return parseURLToken(val.Value, baseUrl)
 		}
@@ -699,7 +699,7 @@ func getContentListToken(token Token, baseUrl string) (pr.ContentProperty, error
 		var str string
 		switch arg := arg_.(type) {
 		case pa.Ident:
-			switch arg.Value {
+			switch utils.AsciiLower(arg.Value) {
 			case "dotted":
 				str = "."
 			case "solid":
